@@ -102,6 +102,9 @@ def update (s : TrkState) (m : Int) (attrs : List (String × Val)) (ts now : Int
       let (s2, evs) := cleanup s1 now
       (s2, (.created, m) :: evs, true)
 
+/-- `get_track(mmsi)`: a dict lookup -/
+def getTrack (s : TrkState) (m : Int) : Option Track := s.tracks.find? (·.mmsi = m)
+
 /-- `n_latest_tracks(n)` -/
 def nLatest (s : TrkState) (n : Int) : List Track :=
   let k := (max (min n s.tracks.length) 0).toNat
